@@ -7,9 +7,20 @@ fn epoch_to_timestamp<V: ValT>(v: &V) -> Result<Timestamp, Error<V>> {
     match v.as_isize() {
         // do not scale integers to microseconds, because this may overflow
         Some(i) => Timestamp::from_second(i as i64),
-        None => Timestamp::from_microsecond((v.try_as_f64()? * 1000000.0) as i64),
+        None => Timestamp::from_microsecond(float_to_micros(v)?),
     }
     .map_err(Error::str)
+}
+
+/// Convert a floating-point UNIX epoch timestamp to microseconds.
+fn float_to_micros<V: ValT>(v: &V) -> Result<i64, Error<V>> {
+    let f = v.try_as_f64()?;
+    // the `as i64` cast below maps NaN to 0, so we have to reject NaN here;
+    // infinite values saturate and are rejected as out of range later
+    if f.is_nan() {
+        return Err(Error::typ(v.clone(), "timestamp"));
+    }
+    Ok((f * 1000000.0) as i64)
 }
 
 /// Convert a date-time pair to a UNIX epoch timestamp.
@@ -26,7 +37,8 @@ fn timestamp_to_epoch<V: ValT>(ts: Timestamp, frac: bool) -> ValR<V> {
 
 fn array_to_datetime<V: ValT>(v: &[V]) -> Option<Result<DateTime, jiff::Error>> {
     let [year, month, day, hour, min, sec]: &[V; 6] = v.get(..6)?.try_into().ok()?;
-    let sec = sec.as_f64()?;
+    // the casts below map NaN to 0, so we have to reject NaN here
+    let sec = sec.as_f64().filter(|sec| !sec.is_nan())?;
     let i8 = |v: &V| -> Option<i8> { v.as_isize()?.try_into().ok() };
     Some(DateTime::new(
         year.as_isize()?.try_into().ok()?,
@@ -73,7 +85,7 @@ pub fn to_iso8601<V: ValT>(v: &V) -> Result<String, Error<V>> {
     let ts = if let Some(i) = v.as_isize() {
         Timestamp::from_second(i as i64)
     } else {
-        Timestamp::from_microsecond((v.try_as_f64()? * 1e6) as i64)
+        Timestamp::from_microsecond(float_to_micros(v)?)
     };
     Ok(ts.map_err(Error::str)?.to_string())
 }
